@@ -429,6 +429,35 @@ let cmd_pl (ps : int) (evfile : string) : unit =
   Printf.printf "done lost=%b events=%d np=%s tx=%s live=%d free=%d pend=%d readers=%d\n" !pl_lost !n (string_of_n s.PL.np) (string_of_n s.PL.tx)
     (L.length s.PL.live) (L.length s.PL.free) (L.length (L.concat (L.map snd s.PL.pend))) (L.length s.PL.readers)
 
+(* ---------- header damage (C12): the model's open on mutated images ---------- *)
+let fnv64_string (s : string) : string =
+  let h = ref 0xcbf29ce484222325L in
+  S.iter (fun c -> h := Int64.mul (Int64.logxor !h (Int64.of_int (Char.code c))) 0x100000001b3L) s;
+  Printf.sprintf "%016Lx" !h
+
+(* damage <pagesize> <image> <mutfile>: per mutation line print "<n> ok <dump hash> inv:<..>" or "<n> <failure>" *)
+let cmd_damage (ps : int) (image : string) (mutfile : string) : unit =
+  let base = read_file image in
+  let p = n_of_int ps in
+  L.iteri (fun i line ->
+    match L.filter (fun x -> x <> "") (S.split_on_char ' ' (S.trim line)) with
+    | [off; hx] ->
+        let off = int_of_string off and bytes = unhex hx in
+        let img = B.of_string base in
+        B.blit_string bytes 0 img off (S.length bytes);
+        let rd = reader_of_string (B.to_string img) in
+        (match Tree.open_meta rd p with
+         | Meta.SelPanic why -> Printf.printf "%d open:panic:%s\n" i (string_of_coq why)
+         | Meta.SelNone -> Printf.printf "%d open:panic:no-valid-header\n" i
+         | Meta.SelMeta _ ->
+             (match Tree.logical rd p with
+              | Codec.Bad m -> Printf.printf "%d bad:%s\n" i (string_of_coq m)
+              | Codec.Ok (_, d) ->
+                  let dump = "dump:" ^ S.concat "" (L.map fmt_dump d) in
+                  let inv = fmt_res (fun _ -> "ok") (Tree.inv_check rd p) in
+                  Printf.printf "%d ok %s check:%s\n" i (fnv64_string dump) inv))
+    | _ -> ()) (read_lines mutfile)
+
 let () =
   match Array.to_list Sys.argv with
   | _ :: "spec" :: hist :: fout :: eout :: _ -> cmd_spec hist fout eout
@@ -436,4 +465,5 @@ let () =
   | _ :: "inv" :: ps :: files -> cmd_inv (int_of_string ps) files
   | _ :: "cursor" :: ps :: file :: ops :: _ -> cmd_cursor (int_of_string ps) file ops
   | _ :: "pl" :: ps :: evs :: _ -> cmd_pl (int_of_string ps) evs
-  | _ -> prerr_endline "usage: monitor spec|select|inv|cursor|pl ..."; exit 2
+  | _ :: "damage" :: ps :: image :: muts :: _ -> cmd_damage (int_of_string ps) image muts
+  | _ -> prerr_endline "usage: monitor spec|select|inv|cursor|pl|damage ..."; exit 2
